@@ -6,60 +6,21 @@
 import Proofs.FileWrite
 import Proofs.ToyPrims
 import Proofs.StreamTamper
+import Proofs.TapeLayout
 namespace AgeModel
 namespace Props.C06
 open Format Stream
 
-/-- bytes of the random tape each kind of recipient consumes -/
-def drawSize : Recipient → Nat
-  | .x25519 _ => 32 | .scrypt _ _ => 32 | .sshEd _ _ => 32 | .sshRsa _ _ => 32 | .custom _ _ => 0
+/- `drawSize` (bytes of the random tape each kind of recipient consumes) and the proof of `wrapOne_consumes` live in
+   Proofs/TapeLayout.lean, beside the lemmas that say where in the tape each recipient's wrap runs; both names stay
+   available here: `Props.C06.drawSize` IS `AgeModel.drawSize`. -/
+export AgeModel (drawSize)
 
 /-- one recipient: a successful wrap consumed exactly the next `drawSize r` bytes
     of the tape and nothing else -/
 theorem wrapOne_consumes (P : Prims) (r : Recipient) (fk tape : Bytes) (res : Option (List Stanza × List Bytes)) (t : Bytes)
-    (h : wrapOne P r fk tape = .ok (res, t)) : ∃ used, tape = used ++ t ∧ used.length = drawSize r := by
-  unfold wrapOne at h
-  cases r with
-  | x25519 pub =>
-    simp only at h
-    split at h
-    · simp at h
-    · rename_i eph t1 hd
-      simp only [Except.ok.injEq, Prod.mk.injEq] at h
-      obtain ⟨_, rfl⟩ := h
-      exact ⟨eph, (draw_spec hd).2, (draw_spec hd).1⟩
-  | scrypt pw n =>
-    simp only at h
-    split at h
-    · simp at h
-    · rename_i salt t1 hd
-      split at h
-      · simp at h
-      · rename_i lab t2 hd2
-        simp only [Except.ok.injEq, Prod.mk.injEq] at h
-        obtain ⟨_, rfl⟩ := h
-        refine ⟨salt ++ lab, by rw [(draw_spec hd).2, (draw_spec hd2).2]; simp, ?_⟩
-        rw [List.length_append, (draw_spec hd).1, (draw_spec hd2).1]; rfl
-  | sshEd w m =>
-    simp only at h
-    split at h
-    · simp at h
-    · rename_i eph t1 hd
-      simp only [Except.ok.injEq, Prod.mk.injEq] at h
-      obtain ⟨_, rfl⟩ := h
-      exact ⟨eph, (draw_spec hd).2, (draw_spec hd).1⟩
-  | sshRsa w p =>
-    simp only at h
-    split at h
-    · simp at h
-    · rename_i seed t1 hd
-      simp only [Except.ok.injEq, Prod.mk.injEq] at h
-      obtain ⟨_, rfl⟩ := h
-      exact ⟨seed, (draw_spec hd).2, (draw_spec hd).1⟩
-  | custom w l =>
-    simp only [Except.ok.injEq, Prod.mk.injEq] at h
-    obtain ⟨_, rfl⟩ := h
-    exact ⟨[], by simp, rfl⟩
+    (h : wrapOne P r fk tape = .ok (res, t)) : ∃ used, tape = used ++ t ∧ used.length = drawSize r :=
+  _root_.AgeModel.wrapOne_consumes P r fk tape res t h
 
 /-- **Tape linearity.** Encrypt's header phase consumes a prefix of the tape made of
     consecutive, non-overlapping slices: 16 bytes of file key, then `drawSize r`
